@@ -14,9 +14,21 @@ theorem cliHeaderOnly_true : cliHeaderOnly = true := by decide
 theorem srvEmptyBuf : C01H2Map.serverEmptyBodyBuffer = true := by decide
 theorem cliEmptyBuf : C01H2Map.clientEmptyBodyBuffer = true := by decide
 theorem respContentType_nil : C01H2Map.respContentType = [] := by decide
+theorem reqKeepsAll_true : reqKeepsAll = true := by decide
+set_option maxRecDepth 20000 in
+theorem respKeepsAll_true : respKeepsAll = true := by decide
+theorem reqTrailerKeepsAll_true : reqTrailerKeepsAll = true := by decide
+theorem respTrailerKeepsAll_true : respTrailerKeepsAll = true := by decide
+theorem cookieSeparator_eq : C01H2Map.cookieSeparator = semiSp := by decide
+theorem reqDeletesTrailerField_true : C01H2Map.reqDeletesTrailerField = true := by decide
+theorem collectFields_true (fs : List Field) : collectFields true fs = ofFields fs := rfl
+theorem joinCookies_eq (h : HMap) :
+    joinCookies h = if (h.vals nCookie).length > 1 then h.setVals nCookie [joinWith semiSp (h.vals nCookie)] else h := by
+  unfold joinCookies; rw [cookieSeparator_eq]
 
 theorem srvDecode_hdr (w : Wire) : (srvDecode w).hdr = (joinCookies (ofFields w.fields)).del nTrailer := by
-  unfold srvDecode; split <;> rfl
+  unfold srvDecode
+  split <;> simp only [srvHdr, reqKeepsAll_true, collectFields_true, reqDeletesTrailerField_true, if_true]
 
 theorem distinct_srvHdr (w : Wire) : Distinct (srvDecode w).hdr := by
   rw [srvDecode_hdr]
@@ -83,7 +95,9 @@ theorem req_fields_preserved (O : Oracles) (remote : Bytes) (win : List Nat) (w 
 
 /-! ### responses -/
 theorem cliDecode_hdr (w : Wire) : (cliDecode w).hdr = (ofFields w.fields).del nTrailer := by
-  unfold cliDecode; split <;> rfl
+  unfold cliDecode
+  simp only [respKeepsAll_true, collectFields_true]
+  split <;> rfl
 
 theorem distinct_cliHdr (w : Wire) : Distinct (cliDecode w).hdr := by
   rw [cliDecode_hdr]; exact distinct_del _ _ (distinct_ofFields _)
@@ -247,7 +261,7 @@ theorem req_pseudo_roundtrip (O : Oracles) (remote : Bytes) (win : List Nat) (w 
   have hp : out.pseudo = _ := fwdReqH2_pseudo O remote win w
   have hb : (srvDecode w).b =
       (if pseudoGet w.pseudo nAuthority = [] then (valuesOf nHost w.fields).headD [] else pseudoGet w.pseudo nAuthority) := by
-    unfold srvDecode; split <;> simp [vals_ofFields]
+    unfold srvDecode; split <;> simp [srvHost, reqKeepsAll_true, collectFields_true, vals_ofFields]
   have hj := splitTarget_join (pseudoGet w.pseudo nPath)
   refine ⟨?_, ?_, ?_, ?_⟩
   · rw [hp, pseudo4_method]
@@ -264,11 +278,11 @@ theorem valuesOf_eq_of_toFields_empty (fs : List Field) (n : Bytes) (h : (toFiel
   simp [List.isEmpty_iff.mp h, valuesAt]
 
 theorem trailerBlock_values (t : Option (List Field)) (n : Bytes) :
-    valuesAt n ((trailerBlock true (some (decodeTrailers true t))).getD []) = valuesOf n (t.getD []) := by
+    valuesAt n ((trailerBlock true (some (decodeTrailers true true t))).getD []) = valuesOf n (t.getD []) := by
   cases t with
   | none => simp [trailerBlock, decodeTrailers, toFields, valuesAt, valuesOf]
   | some fs =>
-    simp only [trailerBlock, decodeTrailers, if_true, endStreamAsModelled_true, Bool.true_and, Option.getD_some]
+    simp only [trailerBlock, decodeTrailers, collectFields_true, if_true, endStreamAsModelled_true, Bool.true_and, Option.getD_some]
     by_cases he : (toFields (ofFields fs)).isEmpty = true
     · simp [he, valuesOf_eq_of_toFields_empty fs n he, valuesAt]
     · simp only [he]
@@ -282,14 +296,14 @@ theorem req_trailers_preserved (O : Oracles) (remote : Bytes) (win : List Nat) (
     (hopen : w.endOnHeaders = false) :
     valuesAt n ((fwdReqH2 O remote win w).trailers.getD []) = valuesOf n (w.trailers.getD []) := by
   unfold fwdReqH2 cliEncode srvDecode
-  simp only [hopen, Bool.false_and, cliSendsTrailers_true, srvPassesTrailers_true]
+  simp only [hopen, Bool.false_and, cliSendsTrailers_true, srvPassesTrailers_true, reqTrailerKeepsAll_true]
   exact trailerBlock_values w.trailers n
 
 /-- **response trailers are preserved** (any status that has a body, any body length including none) -/
 theorem resp_trailers_preserved (win : List Nat) (w : Wire) (n : Bytes) (hopen : w.endOnHeaders = false) :
     valuesAt n ((fwdRespH2 false win w).trailers.getD []) = valuesOf n (w.trailers.getD []) := by
   unfold fwdRespH2 srvEncode cliDecode
-  simp only [hopen, Bool.false_and, srvSendsTrailers_true, cliPassesTrailers_true, cliEmptyBuf, Bool.true_or, if_true]
+  simp only [hopen, Bool.false_and, srvSendsTrailers_true, cliPassesTrailers_true, respTrailerKeepsAll_true, cliEmptyBuf, Bool.true_or, if_true]
   simp only [C01H2Map.respEndOnHeaders, Option.isNone_some, Bool.false_and, Bool.or_false, Bool.false_eq_true, if_false]
   exact trailerBlock_values w.trailers n
 
@@ -315,7 +329,7 @@ theorem req_cookie_crumbs (O : Oracles) (remote : Bytes) (win : List Nat) (w : W
   rw [valuesAt_clField nCookie (by decide), valuesAt_reqFieldsOf _ (distinct_srvHdr w) nCookie (by decide) (by decide) (by decide),
     srvDecode_hdr, vals_del]
   simp only [show ¬ nTrailer = nCookie by decide, if_false, List.append_nil]
-  unfold joinCookies
+  rw [joinCookies_eq]
   rw [vals_ofFields]
   split
   · rename_i h
